@@ -1429,3 +1429,448 @@ Proof.
     apply IHx. eapply skel_trans; [exact S0|apply IH]. }
   apply H. apply skel_upd_owner. intros a. repeat split.
 Qed.
+
+(** ** the release cascade preserves the invariant *)
+Definition free_ok (c : core) : Prop :=
+  NoDup (free c) /\
+  forall i, In i (free c) -> exists s, nth_error (slots c) i = Some s /\ s_item s = None.
+
+Lemma exec_prim_ind (P : core -> Prop) :
+  (forall c o dead, P c -> P (upd_owner o (clear_owner dead) c)) ->
+  (forall c l, P c -> P (add_log c l)) ->
+  (forall c k, P c -> P (snd (remove k c))) ->
+  (forall c, P c -> P (set_err c)) ->
+  forall f j c, P c -> P (exec f j c).
+Proof.
+  intros H1 H2 H3 H4. induction f as [|f IH]; intros j c Hc; [apply H4; exact Hc|].
+  assert (Hfold : forall {X} (g : X -> core -> core) xs, (forall x c, P c -> P (g x c)) ->
+            forall c, P c -> P (fold_left (fun c x => g x c) xs c)).
+  { intros X g xs Hg. induction xs as [|x xs IHx]; intros c0 H0; cbn; auto. }
+  destruct j as [o|o|k]; cbn [exec].
+  - destruct (nth_error (owners c) o) as [ow|]; [|exact Hc]. destruct (o_alive ow); [|exact Hc].
+    apply (Hfold _ (fun k c => exec f (JRemove k) c)); [intros; apply IH; auto|].
+    apply H2. apply (Hfold _ (fun ch c => exec f (JCleanup ch) c)); [intros; apply IH; auto|].
+    apply H1. exact Hc.
+  - destruct (nth_error (owners c) o) as [ow|]; [|exact Hc]. destruct (o_alive ow); [|exact Hc].
+    apply (Hfold _ (fun k c => exec f (JRemove k) c)); [intros; apply IH; auto|].
+    apply H2. apply (Hfold _ (fun ch c => exec f (JCleanup ch) c)); [intros; apply IH; auto|].
+    apply H1. exact Hc.
+  - pose proof (H3 c k Hc) as H. destruct (remove k c) as [[it|] c'']; cbn in H; [|exact H].
+    destruct it; try exact H. apply IH. exact H.
+Qed.
+
+Lemma free_ok_remove c k : free_ok c -> free_ok (snd (remove k c)).
+Proof.
+  intros [Hnd Hv]. unfold remove. destruct (get c k) as [it|] eqn:Hg; cbn; [|split; auto].
+  unfold get in Hg. destruct (nth_error (slots c) (fst k)) as [s|] eqn:Hs; [|discriminate].
+  destruct (s_ver s =? snd k); [|discriminate].
+  split; cbn.
+  - constructor; [|exact Hnd]. intros Hin. destruct (Hv _ Hin) as (s' & Hs' & Hn).
+    rewrite Hs in Hs'. inversion Hs'; subst. congruence.
+  - intros i [<-|Hin].
+    + rewrite nth_error_upd_same, Hs. cbn. eauto.
+    + destruct (Nat.eq_dec i (fst k)) as [->|Hne].
+      * rewrite nth_error_upd_same, Hs. cbn. eauto.
+      * rewrite nth_error_upd_other by exact Hne. auto.
+Qed.
+
+Lemma exec_free_ok f j c : free_ok c -> free_ok (exec f j c).
+Proof.
+  apply (exec_prim_ind free_ok); auto. intros c0 k. apply free_ok_remove.
+Qed.
+
+Lemma mono_slot_ver c c' i s : mono c c' -> nth_error (slots c) i = Some s ->
+  exists s', nth_error (slots c') i = Some s' /\ s_ver s <= s_ver s'.
+Proof.
+  intros M Hs. destruct (Forall2_nth_l _ _ _ (mo_slots _ _ M) _ _ Hs) as (b & Hb & [E|(_ & Hlt)]);
+    exists b; split; auto; [subst; lia|lia].
+Qed.
+
+Lemma cinv_exec f j c : cinv c -> cinv (exec f j c).
+Proof.
+  intros I. pose proof (exec_mono f j c) as M. pose proof (exec_conserve f j c) as K.
+  destruct I as [W Wp Hnd Hcid Hkeys Hfree Hreg].
+  constructor.
+  - eapply wfs_mono; eauto.
+  - intros q b p Hb Hp. destruct (mono_owner_r _ _ _ _ M Hb) as (a & Ha & [->|(_ & Hpa & _)]).
+    + eauto.
+    + rewrite Hpa in Hp. eauto.
+  - eapply nd_conserve; eauto.
+  - intros cid Hin. rewrite (mo_cid _ _ M). apply Hcid.
+    eapply Permutation_in; [exact (proj1 K)|exact Hin].
+  - intros p b k Hb Hk. destruct (mono_owner_r _ _ _ _ M Hb) as (a & Ha & [->|((_ & Hg & _) & _)]).
+    + destruct (Hkeys p a k Ha Hk) as (s & Hs & Hv).
+      destruct (mono_slot_ver _ _ _ _ M Hs) as (s' & Hs' & Hv'). exists s'. split; [auto|lia].
+    + rewrite Hg in Hk. destruct Hk.
+  - apply exec_free_ok. exact Hfree.
+  - intros He Hu k Hv.
+    assert (He0 : err c = false).
+    { destruct (err c) eqn:E; [|reflexivity]. rewrite (mo_err _ _ M E) in He. discriminate. }
+    rewrite (mo_unowned _ _ M) in Hu.
+    assert (Hv0 : valid c k).
+    { unfold valid in *. destruct (mono_get c _ k M) as [E|E]; congruence. }
+    destruct (Hreg He0 Hu k Hv0) as (p & a & Ha & Hal & Hk).
+    destruct (mono_owner _ _ _ _ M Ha) as (b & Hb & [->|(Hg & _)]).
+    + exists p, a. auto.
+    + exfalso. apply Hv. exact (proj2 (exec_closure f j c He p a b Ha Hb Hg) k Hk).
+Qed.
+
+Lemma cinv_cleanup o c : cinv c -> cinv (cleanup o c).
+Proof. apply cinv_exec. Qed.
+Lemma cinv_drop o c : cinv c -> cinv (drop_owner o c).
+Proof. apply cinv_exec. Qed.
+Lemma cinv_dispose k c : cinv c -> cinv (dispose k c).
+Proof. apply cinv_exec. Qed.
+
+(** ** creating an owner *)
+Lemma pending_snoc l (x : owner) : o_cleanups x = [] ->
+  concat (map o_cleanups (l ++ [x])) = concat (map o_cleanups l).
+Proof. intros H. rewrite map_app, concat_app. cbn. rewrite H. cbn. rewrite !app_nil_r. reflexivity. Qed.
+
+Lemma pending_upd_same l o f : (forall a, o_cleanups (f a) = o_cleanups a) ->
+  concat (map o_cleanups (upd o f l)) = concat (map o_cleanups l).
+Proof. intros H. f_equal. apply map_upd_id. exact H. Qed.
+
+Definition add_child (n : nat) (ow : owner) : owner :=
+  mkOwner (o_parent ow) (o_children ow ++ [n]) (o_nodes ow) (o_cleanups ow) (o_ctx ow)
+          (o_paused ow) (o_alive ow).
+
+Lemma new_owner_eq parent c :
+  new_owner parent c =
+  (length (owners c),
+   let par := match parent with Some p => if alive c p then Some p else None | None => None end in
+   let c1 := set_owners c (owners c ++ [mkOwner par [] [] [] [] false true]) in
+   match par with Some p => upd_owner p (add_child (length (owners c))) c1 | None => c1 end).
+Proof. reflexivity. Qed.
+
+Lemma cinv_new_owner parent c : cinv c -> cinv (snd (new_owner parent c)).
+Proof.
+  intros I. rewrite new_owner_eq. cbn [snd].
+  set (n := length (owners c)).
+  set (par := match parent with Some p => if alive c p then Some p else None | None => None end).
+  set (fresh := mkOwner par [] [] [] [] false true).
+  set (c1 := set_owners c (owners c ++ [fresh])).
+  assert (Hpar : forall p, par = Some p -> alive c p = true /\ p < n).
+  { intros p Hp. unfold par in Hp. destruct parent as [p0|]; [|discriminate].
+    destruct (alive c p0) eqn:Hal; [|discriminate]. inversion Hp; subst. split; [auto|].
+    unfold alive in Hal. destruct (nth_error (owners c) p) eqn:E; [|discriminate].
+    apply nth_error_Some. congruence. }
+  set (c' := match par with Some p => upd_owner p (add_child n) c1 | None => c1 end).
+  (* every owner of c' is an old one (children possibly extended by n) or the fresh one *)
+  assert (Hnth : forall q b, nth_error (owners c') q = Some b ->
+            (q < n /\ exists a, nth_error (owners c) q = Some a /\
+                                (b = a \/ (b = add_child n a /\ par = Some q))) \/
+            (q = n /\ b = fresh)).
+  { intros q b Hb.
+    assert (H1 : forall b', nth_error (owners c1) q = Some b' ->
+              (q < n /\ nth_error (owners c) q = Some b') \/ (q = n /\ b' = fresh)).
+    { intros b' Hb'. unfold c1 in Hb'. cbn in Hb'. rewrite nth_error_snoc in Hb'. fold n in Hb'.
+      destruct (Nat.ltb_spec q n); [left; auto|].
+      destruct (Nat.eqb_spec q n); [|discriminate]. inversion Hb'. right. auto. }
+    unfold c' in Hb. destruct par as [p|] eqn:Ep.
+    - destruct (Hpar p eq_refl) as (_ & Hpn).
+      unfold upd_owner in Hb. cbn [owners set_owners] in Hb. rewrite nth_error_upd in Hb.
+      destruct (Nat.eqb_spec q p) as [->|Hne].
+      + destruct (nth_error (owners c1) p) as [a|] eqn:Ha; [|discriminate]. cbn in Hb. inversion Hb; subst b.
+        destruct (H1 a eq_refl) as [(Hlt & Ha0)|(Hq & _)]; [|lia].
+        left. split; [auto|]. exists a. split; [auto|]. right. auto.
+      + destruct (H1 b Hb) as [(Hlt & Ha0)|(Hq & Hf)]; [left|right; auto].
+        split; [auto|]. exists b. auto.
+    - destruct (H1 b Hb) as [(Hlt & Ha0)|(Hq & Hf)]; [left|right; auto].
+      split; [auto|]. exists b. auto. }
+  assert (Hlen : length (owners c') = S n).
+  { unfold c'. destruct par; unfold upd_owner, c1; cbn; rewrite ?length_upd, app_length; cbn; lia. }
+  assert (Hslots : slots c' = slots c) by (unfold c'; destruct par; reflexivity).
+  assert (Hfree : free c' = free c) by (unfold c'; destruct par; reflexivity).
+  assert (Hlog : clog c' = clog c) by (unfold c'; destruct par; reflexivity).
+  assert (Hcidn : next_cid c' = next_cid c) by (unfold c'; destruct par; reflexivity).
+  assert (Herr : err c' = err c) by (unfold c'; destruct par; reflexivity).
+  assert (Hun : unowned c' = unowned c) by (unfold c'; destruct par; reflexivity).
+  assert (Hget : forall k, get c' k = get c k) by (intros k; unfold get; rewrite Hslots; reflexivity).
+  assert (Hpend : pending c' = pending c).
+  { unfold pending, c'. destruct par.
+    - unfold upd_owner. cbn [owners set_owners]. rewrite pending_upd_same by reflexivity.
+      unfold c1. cbn. apply pending_snoc. reflexivity.
+    - unfold c1. cbn. apply pending_snoc. reflexivity. }
+  (* old owners keep their place *)
+  assert (Hold : forall q a, nth_error (owners c) q = Some a ->
+            exists b, nth_error (owners c') q = Some b /\ o_alive b = o_alive a /\
+                      o_nodes b = o_nodes a).
+  { intros q a Ha. assert (Hq : q < n) by (apply nth_error_Some; congruence).
+    assert (H1 : nth_error (owners c1) q = Some a).
+    { unfold c1. cbn. rewrite nth_error_app1; auto. }
+    unfold c'. destruct par as [p|].
+    - unfold upd_owner. cbn [owners set_owners]. rewrite nth_error_upd.
+      destruct (q =? p); [rewrite H1; cbn; eauto|eauto].
+    - eauto. }
+  destruct I as [[Wc Wm] Wp Hnd Hcid Hkeys Hfr Hreg].
+  constructor.
+  - constructor.
+    + intros q b x Hb Hx. rewrite Hlen.
+      destruct (Hnth q b Hb) as [(Hq & a & Ha & [->|(-> & Hp)])|(-> & ->)].
+      * destruct (Wc q a x Ha Hx). fold n in H0. lia.
+      * cbn in Hx. apply in_app_or in Hx as [Hx|[<-|[]]]; [|lia].
+        destruct (Wc q a x Ha Hx). fold n in H0. lia.
+      * destruct Hx.
+    + intros q b k m mo Hb Hk Hg. rewrite Hget in Hg.
+      destruct (Hnth q b Hb) as [(Hq & a & Ha & [->|(-> & Hp)])|(-> & ->)].
+      * eauto.
+      * cbn in Hk |- *. apply in_or_app. left. eauto.
+      * destruct Hk.
+  - intros q b p Hb Hp.
+    destruct (Hnth q b Hb) as [(Hq & a & Ha & [->|(-> & _)])|(-> & ->)].
+    + eauto.
+    + cbn in Hp. eauto.
+    + cbn in Hp. destruct (Hpar p Hp). lia.
+  - unfold nd. rewrite Hlog, Hpend. exact Hnd.
+  - rewrite Hlog, Hpend, Hcidn. exact Hcid.
+  - intros q b k Hb Hk. rewrite Hslots.
+    destruct (Hnth q b Hb) as [(Hq & a & Ha & [->|(-> & _)])|(-> & ->)]; [eauto|eauto|destruct Hk].
+  - rewrite Hfree, Hslots. exact Hfr.
+  - rewrite Herr, Hun. intros He Hu k Hv. unfold valid in Hv. rewrite Hget in Hv.
+    destruct (Hreg He Hu k Hv) as (p & a & Ha & Hal & Hk).
+    destruct (Hold p a Ha) as (b & Hb & Hal' & Hn'). exists p, b. rewrite Hal', Hn'. auto.
+Qed.
+
+(** after [new_owner (Some cur)]: the new owner is alive, and a child of [cur] if [cur] is alive *)
+Lemma new_owner_child cur c : alive c cur = true ->
+  let c' := snd (new_owner (Some cur) c) in
+  let n := length (owners c) in
+  alive c' cur = true /\ alive c' n = true /\
+  exists ow, nth_error (owners c') cur = Some ow /\ In n (o_children ow).
+Proof.
+  intros Hal c' n. unfold c'. rewrite new_owner_eq. cbn [snd]. rewrite Hal. fold n.
+  assert (Hlt : cur < n).
+  { unfold alive in Hal. destruct (nth_error (owners c) cur) eqn:E; [|discriminate].
+    apply nth_error_Some. congruence. }
+  unfold alive in *. unfold upd_owner. cbn [owners set_owners].
+  destruct (nth_error (owners c) cur) as [a|] eqn:Ha; [|discriminate].
+  rewrite !nth_error_upd. rewrite Nat.eqb_refl.
+  destruct (Nat.eqb_spec n cur); [lia|].
+  rewrite nth_error_app1 by exact Hlt. rewrite Ha. cbn.
+  rewrite nth_error_app2 by (fold n; lia). fold n. rewrite Nat.sub_diag. cbn.
+  repeat split; auto. eexists. split; [reflexivity|]. cbn. apply in_or_app. right. left. reflexivity.
+Qed.
+
+(** ** registering a cleanup *)
+Definition add_cleanup (cid : nat) (ow : owner) : owner :=
+  mkOwner (o_parent ow) (o_children ow) (o_nodes ow) (o_cleanups ow ++ [cid]) (o_ctx ow)
+          (o_paused ow) (o_alive ow).
+
+Lemma pending_add (l : list owner) cid : forall o a, nth_error l o = Some a ->
+  Permutation (concat (map o_cleanups (upd o (add_cleanup cid) l))) (cid :: concat (map o_cleanups l)).
+Proof.
+  induction l as [|x l IH]; intros [|o] a Hn; cbn in *; try discriminate.
+  - rewrite <- app_assoc. cbn. symmetry. apply Permutation_middle.
+  - rewrite (IH o a Hn). symmetry. apply Permutation_middle.
+Qed.
+
+Lemma cinv_reg_cleanup o c : cinv c -> cinv (reg_cleanup o c).
+Proof.
+  intros I. unfold reg_cleanup.
+  set (cid := next_cid c).
+  set (c1 := mkCore (owners c) (slots c) (free c) (clog c) (S cid) (err c) (unowned c)).
+  assert (I1 : cinv c1).
+  { destruct I as [[Wc Wm] Wp Hnd Hcid Hkeys Hfr Hreg].
+    constructor; [constructor; [exact Wc|exact Wm]|exact Wp|exact Hnd| |exact Hkeys|exact Hfr|exact Hreg].
+    intros x Hx. specialize (Hcid x Hx). fold cid in Hcid. cbn. lia. }
+  destruct (alive c o) eqn:Hal; [|exact I1].
+  unfold alive in Hal. destruct (nth_error (owners c) o) as [a|] eqn:Ha; [|discriminate].
+  assert (S1 : Forall2 same_skel_owner (owners c1) (owners c1)) by apply Forall2_refl, skel_refl_owner.
+  destruct I1 as [[Wc Wm] Wp Hnd Hcid Hkeys Hfr Hreg].
+  assert (Hnth : forall q b, nth_error (owners (upd_owner o (add_cleanup cid) c1)) q = Some b ->
+            exists a', nth_error (owners c) q = Some a' /\ o_children b = o_children a' /\
+                       o_nodes b = o_nodes a' /\ o_parent b = o_parent a' /\ o_alive b = o_alive a').
+  { intros q b Hb. unfold upd_owner in Hb. cbn in Hb. rewrite nth_error_upd in Hb.
+    destruct (q =? o).
+    - destruct (nth_error (owners c) q) as [a'|]; [|discriminate]. inversion Hb. exists a'. auto.
+    - exists b. auto. }
+  assert (P : Permutation (pending (upd_owner o (add_cleanup cid) c1)) (cid :: pending c)).
+  { unfold pending, upd_owner. cbn. eapply pending_add. exact Ha. }
+  assert (Hfresh : ~ In cid (cids (clog c) ++ pending c)).
+  { intros Hin. destruct I as [_ _ _ Hc _ _ _]. specialize (Hc cid Hin). unfold cid in Hc. lia. }
+  constructor.
+  - constructor.
+    + intros q b x Hb Hx. destruct (Hnth q b Hb) as (a' & Ha' & Hc & _). rewrite Hc in Hx.
+      unfold upd_owner. cbn. rewrite length_upd. exact (Wc q a' x Ha' Hx).
+    + intros q b k m mo Hb Hk Hg. destruct (Hnth q b Hb) as (a' & Ha' & Hc & Hn & _).
+      rewrite Hn in Hk. rewrite Hc. exact (Wm q a' k m mo Ha' Hk Hg).
+  - intros q b p Hb Hp. destruct (Hnth q b Hb) as (a' & Ha' & _ & _ & Hpa & _).
+    rewrite Hpa in Hp. exact (Wp q a' p Ha' Hp).
+  - unfold nd in *. cbn [clog upd_owner set_owners].
+    eapply Permutation_NoDup.
+    + symmetry. etransitivity; [apply Permutation_app_head; exact P|]. symmetry. apply Permutation_middle.
+    + constructor; [exact Hfresh|exact Hnd].
+  - intros x Hx. cbn [next_cid upd_owner set_owners c1].
+    assert (Hx' : In x (cid :: cids (clog c) ++ pending c)).
+    { eapply Permutation_in; [|exact Hx]. cbn [clog upd_owner set_owners c1].
+      etransitivity; [apply Permutation_app_head; exact P|]. symmetry. apply Permutation_middle. }
+    destruct Hx' as [<-|Hx']; [unfold cid; lia|]. specialize (Hcid x Hx'). cbn in Hcid. exact Hcid.
+  - intros q b k Hb Hk. destruct (Hnth q b Hb) as (a' & Ha' & _ & Hn & _). rewrite Hn in Hk.
+    exact (Hkeys q a' k Ha' Hk).
+  - exact Hfr.
+  - intros He Hu k Hv. destruct (Hreg He Hu k Hv) as (p & a' & Ha' & Hal' & Hk).
+    cbn in Ha'. unfold upd_owner. cbn [owners set_owners c1]. 
+    destruct (Nat.eq_dec p o) as [->|Hne].
+    + exists o, (add_cleanup cid a'). rewrite nth_error_upd_same, Ha'. cbn. auto.
+    + exists p, a'. rewrite nth_error_upd_other by exact Hne. auto.
+Qed.
+
+(** ** allocating a value *)
+Record insert_ok (it : item) (c : core) (k : key) (c' : core) : Prop := {
+  io_owners : owners c' = owners c;
+  io_log : clog c' = clog c;
+  io_cid : next_cid c' = next_cid c;
+  io_err : err c' = err c;
+  io_unowned : unowned c' = unowned c;
+  io_get : get c' k = Some it;
+  io_other : forall k', k' <> k -> get c' k' = get c k';
+  io_ver : forall i s, nth_error (slots c) i = Some s ->
+           exists s', nth_error (slots c') i = Some s' /\ s_ver s <= s_ver s';
+  io_slot : exists s, nth_error (slots c') (fst k) = Some s /\ s_ver s = snd k;
+  io_fresh : ~ exists s, nth_error (slots c) (fst k) = Some s /\ snd k <= s_ver s;
+  io_free : free_ok c'
+}.
+
+Lemma insert_spec it c : free_ok c -> insert_ok it c (fst (insert it c)) (snd (insert it c)).
+Proof.
+  intros [Hnd Hv]. unfold insert.
+  assert (Hfreshcase : forall fr, (fr = [] \/ True) -> free_ok (set_arena c (slots c ++ [mkSlot 1 (Some it)]) fr) ->
+            insert_ok it c (length (slots c), 1) (set_arena c (slots c ++ [mkSlot 1 (Some it)]) fr)).
+  { intros fr _ Hfo. constructor; cbn; auto.
+    - unfold get. cbn. rewrite nth_error_app2, Nat.sub_diag by lia. reflexivity.
+    - intros k' Hne. unfold get. cbn. destruct (Nat.lt_ge_cases (fst k') (length (slots c))) as [Hlt|Hge].
+      + rewrite nth_error_app1 by exact Hlt. reflexivity.
+      + rewrite nth_error_app2 by exact Hge.
+        assert (Hn : nth_error (slots c) (fst k') = None) by (apply nth_error_None; exact Hge).
+        rewrite Hn. destruct (fst k' - length (slots c)) as [|d] eqn:Ed; cbn [nth_error s_ver s_item].
+        * destruct (Nat.eqb_spec 1 (snd k')); [|reflexivity]. exfalso. apply Hne.
+          destruct k'; cbn in *. f_equal; lia.
+        * destruct d; reflexivity.
+    - intros i s Hs. exists s. split; [|lia]. rewrite nth_error_app1; [exact Hs|].
+      apply nth_error_Some. congruence.
+    - exists (mkSlot 1 (Some it)). rewrite nth_error_app2, Nat.sub_diag by lia. auto.
+    - intros (s & Hs & _). cbn in Hs.
+      assert (Hn : nth_error (slots c) (length (slots c)) = None) by (apply nth_error_None; lia).
+      congruence. }
+  destruct (free c) as [|i fr] eqn:Ef.
+  - cbn [fst snd]. apply Hfreshcase; [auto|]. split; cbn; [constructor|intros ? []].
+  - destruct (Hv i (or_introl eq_refl)) as (s & Hs & Hvac). rewrite Hs. cbn [fst snd].
+    inversion Hnd as [|? ? Hni Hnd']; subst.
+    constructor; cbn; auto.
+    + unfold get. cbn. rewrite nth_error_upd_same, Hs. cbn. rewrite Nat.eqb_refl. reflexivity.
+    + intros k' Hne. unfold get. cbn. destruct (Nat.eq_dec (fst k') i) as [E|E].
+      * rewrite E, nth_error_upd_same, Hs. cbn [option_map s_ver s_item]. rewrite Hvac.
+        destruct (Nat.eqb_spec (S (s_ver s)) (snd k')) as [E2|_].
+        -- exfalso. apply Hne. destruct k'; cbn in *. subst. reflexivity.
+        -- destruct (s_ver s =? snd k'); reflexivity.
+      * rewrite nth_error_upd_other by exact E. reflexivity.
+    + intros j sj Hj. destruct (Nat.eq_dec j i) as [->|E].
+      * rewrite nth_error_upd_same, Hs. cbn. rewrite Hs in Hj. inversion Hj; subst. eexists. split; [reflexivity|cbn; lia].
+      * rewrite nth_error_upd_other by exact E. exists sj. split; [auto|lia].
+    + rewrite nth_error_upd_same, Hs. cbn. eexists. split; [reflexivity|reflexivity].
+    + intros (s' & Hs' & Hle). rewrite Hs in Hs'. inversion Hs'; subst. lia.
+    + split; cbn; [exact Hnd'|]. intros j Hj.
+      assert (j <> i) by (intros ->; contradiction).
+      rewrite nth_error_upd_other by auto. apply Hv. right. exact Hj.
+Qed.
+
+Definition add_node (k : key) (ow : owner) : owner :=
+  mkOwner (o_parent ow) (o_children ow) (o_nodes ow ++ [k]) (o_cleanups ow) (o_ctx ow)
+          (o_paused ow) (o_alive ow).
+
+Lemma alloc_eq o it c :
+  alloc o it c =
+  let k := fst (insert it c) in let c1 := snd (insert it c) in
+  if alive c o then (k, upd_owner o (add_node k) c1)
+  else (k, mkCore (owners c1) (slots c1) (free c1) (clog c1) (next_cid c1) (err c1) true).
+Proof. unfold alloc. destruct (insert it c). reflexivity. Qed.
+
+(** [memo_ok]: if the new item is a memo, its owner is already a child of the current owner *)
+Definition memo_ok (c : core) (o : nat) (it : item) : Prop :=
+  match it with
+  | IMemo _ mo => alive c o = true -> exists ow, nth_error (owners c) o = Some ow /\ In mo (o_children ow)
+  | _ => True
+  end.
+
+Lemma cinv_alloc o it c : cinv c -> memo_ok c o it -> cinv (snd (alloc o it c)).
+Proof.
+  intros I Hmo. rewrite alloc_eq. cbn zeta.
+  destruct I as [[Wc Wm] Wp Hnd Hcid Hkeys Hfr Hreg].
+  pose proof (insert_spec it c Hfr) as IO.
+  set (k := fst (insert it c)) in *. set (c1 := snd (insert it c)) in *.
+  destruct IO as [Eo El Ec Ee Eu Hgk Hoth Hver Hslot Hfresh Hfo].
+  (* k is not registered anywhere *)
+  assert (Hnotreg : forall p a, nth_error (owners c) p = Some a -> ~ In k (o_nodes a)).
+  { intros p a Ha Hin. apply Hfresh. exact (Hkeys p a k Ha Hin). }
+  assert (Hpend1 : pending c1 = pending c) by (unfold pending; rewrite Eo; reflexivity).
+  destruct (alive c o) eqn:Hal; cbn [snd].
+  - unfold alive in Hal. destruct (nth_error (owners c) o) as [ao|] eqn:Hao; [|discriminate].
+    assert (Hnth : forall q b, nth_error (owners (upd_owner o (add_node k) c1)) q = Some b ->
+              exists a, nth_error (owners c) q = Some a /\ o_children b = o_children a /\
+                        o_parent b = o_parent a /\ o_alive b = o_alive a /\ o_cleanups b = o_cleanups a /\
+                        (o_nodes b = o_nodes a \/ (q = o /\ o_nodes b = o_nodes a ++ [k]))).
+    { intros q b Hb. unfold upd_owner in Hb. cbn in Hb. rewrite Eo, nth_error_upd in Hb.
+      destruct (Nat.eqb_spec q o) as [->|].
+      - rewrite Hao in Hb. cbn in Hb. inversion Hb. exists ao. cbn. repeat split; auto.
+      - exists b. repeat split; auto. }
+    assert (Hpend : pending (upd_owner o (add_node k) c1) = pending c).
+    { unfold pending, upd_owner. cbn. rewrite pending_upd_same by reflexivity. rewrite Eo. reflexivity. }
+    constructor.
+    + constructor.
+      * intros q b x Hb Hx. destruct (Hnth q b Hb) as (a & Ha & Hc & _). rewrite Hc in Hx.
+        unfold upd_owner. cbn. rewrite length_upd, Eo. eauto.
+      * intros q b k' m mo Hb Hk' Hg. destruct (Hnth q b Hb) as (a & Ha & Hc & _ & _ & _ & Hn).
+        rewrite Hc. change (get (upd_owner o (add_node k) c1) k') with (get c1 k') in Hg.
+        destruct (key_eq_dec k' k) as [->|Hne].
+        -- rewrite Hgk in Hg. inversion Hg; subst it.
+           destruct Hn as [Hn|(-> & Hn)].
+           ++ exfalso. rewrite Hn in Hk'. exact (Hnotreg q a Ha Hk').
+           ++ cbn in Hmo. assert (Halo : alive c o = true) by (unfold alive; rewrite Hao; exact Hal).
+              destruct (Hmo Halo) as (ow & Hw & Hin). rewrite Hao in Hw, Ha.
+              inversion Hw; inversion Ha; subst. exact Hin.
+        -- rewrite (Hoth k' Hne) in Hg. destruct Hn as [Hn|(-> & Hn)]; rewrite Hn in Hk'.
+           ++ eauto.
+           ++ apply in_app_or in Hk' as [Hk'|[E|[]]]; [eauto|congruence].
+    + intros q b p Hb Hp. destruct (Hnth q b Hb) as (a & Ha & _ & Hpa & _). rewrite Hpa in Hp. eauto.
+    + unfold nd. change (clog (upd_owner o (add_node k) c1)) with (clog c1). rewrite El, Hpend. exact Hnd.
+    + change (clog (upd_owner o (add_node k) c1)) with (clog c1).
+      change (next_cid (upd_owner o (add_node k) c1)) with (next_cid c1). rewrite El, Hpend, Ec. exact Hcid.
+    + intros q b k' Hb Hk'. change (slots (upd_owner o (add_node k) c1)) with (slots c1).
+      destruct (Hnth q b Hb) as (a & Ha & _ & _ & _ & _ & Hn).
+      assert (Hold : In k' (o_nodes a) -> exists s, nth_error (slots c1) (fst k') = Some s /\ snd k' <= s_ver s).
+      { intros Hin. destruct (Hkeys q a k' Ha Hin) as (s & Hs & Hle).
+        destruct (Hver _ _ Hs) as (s' & Hs' & Hle'). exists s'. split; [auto|lia]. }
+      destruct Hn as [Hn|(-> & Hn)]; rewrite Hn in Hk'; [auto|].
+      apply in_app_or in Hk' as [Hk'|[<-|[]]]; [auto|].
+      destruct Hslot as (s & Hs & Hv). exists s. split; [auto|lia].
+    + exact Hfo.
+    + change (err (upd_owner o (add_node k) c1)) with (err c1).
+      change (unowned (upd_owner o (add_node k) c1)) with (unowned c1). rewrite Ee, Eu.
+      intros He Hu k' Hv. unfold valid in Hv.
+      change (get (upd_owner o (add_node k) c1) k') with (get c1 k') in Hv.
+      unfold upd_owner. cbn [owners set_owners]. rewrite Eo.
+      destruct (key_eq_dec k' k) as [->|Hne].
+      * exists o, (add_node k ao). rewrite nth_error_upd_same, Hao. cbn. repeat split; auto.
+        apply in_or_app. right. left. reflexivity.
+      * rewrite (Hoth k' Hne) in Hv. destruct (Hreg He Hu k' Hv) as (p & a & Ha & Hala & Hk).
+        destruct (Nat.eq_dec p o) as [->|Hpo].
+        -- rewrite Hao in Ha. inversion Ha; subst a. exists o, (add_node k ao).
+           rewrite nth_error_upd_same, Hao. cbn. repeat split; auto. apply in_or_app. left. exact Hk.
+        -- exists p, a. rewrite nth_error_upd_other by exact Hpo. auto.
+  - (* nothing owns the value: only the ghost flag records it *)
+    constructor; cbn.
+    + constructor.
+      * intros q b x Hb Hx. rewrite Eo in *. eauto.
+      * intros q b k' m mo Hb Hk' Hg. rewrite Eo in Hb.
+        change (get _ k') with (get c1 k') in Hg.
+        destruct (key_eq_dec k' k) as [->|Hne]; [exfalso; exact (Hnotreg q b Hb Hk')|].
+        rewrite (Hoth k' Hne) in Hg. eauto.
+    + intros q b p Hb Hp. rewrite Eo in Hb. eauto.
+    + unfold nd, pending. cbn. rewrite El, Eo. exact Hnd.
+    + unfold pending. cbn. rewrite El, Eo, Ec. exact Hcid.
+    + intros q b k' Hb Hk'. rewrite Eo in Hb. destruct (Hkeys q b k' Hb Hk') as (s & Hs & Hle).
+      destruct (Hver _ _ Hs) as (s' & Hs' & Hle'). exists s'. split; [auto|lia].
+    + exact Hfo.
+    + intros _ Hu. discriminate.
+Qed.
